@@ -1,7 +1,452 @@
-//! C01: not implemented yet.
-use crate::util::Args;
+//! C01 (and the input side of C13): the expression simplifier.
+//! (case ID (expr E) (impl R | (panic)) (impl_dense R) (tc ok|fail) (again same|R2) (panicloc "..") )
+use crate::dump::*;
+use crate::exprgen::*;
+use crate::rng::Rng;
+use crate::sexp::{Sexp, build_expr, read_cases};
+use crate::util::*;
+use baa::{BitVecOps, BitVecValue};
+use patronus::expr::*;
+use std::io::Write;
 
-pub fn run(_args: &Args) {
-    eprintln!("C01: harness module not implemented yet");
-    std::process::exit(2);
+pub fn run(args: &Args) {
+    let mut rng = Rng::new(args.seed);
+    let mut out = std::io::BufWriter::new(std::fs::File::create(&args.out).expect("out file"));
+    let mut stats = Stats::default();
+    let mut distinct = std::collections::HashSet::new();
+    if let Some(path) = args.get("cases-in") {
+        for c in read_cases(path).iter() {
+            let mut ctx = Context::default();
+            let e = build_expr(&mut ctx, &c.field("expr").unwrap()[0]);
+            let id = c.list()[1].atom().to_string();
+            let line = run_case(&id, ctx, e, &mut stats);
+            stats.sample(&line, 3);
+            writeln!(out, "{line}").unwrap();
+        }
+    }
+    let directed_share = args.get_u64("directed", 50);
+    for id in 0..args.count {
+        let mut r = rng.fork();
+        let mut ctx = Context::default();
+        let mut cfg = GenCfg::default();
+        cfg.max_depth = 1 + r.below(4) as u32;
+        cfg.div_rem = r.chance(1, 8);
+        cfg.mul_max_width = 129;
+        if let Some(w) = args.get("widths") {
+            cfg.widths = w.split(',').map(|x| x.parse().unwrap()).collect();
+        }
+        let directed = r.below(100) < directed_share;
+        let (e, ops) = {
+            let mut g = ExprGen::new(&mut ctx, &mut r, cfg.clone());
+            let e = if directed { gen_directed(&mut g) } else { gen_random(&mut g) };
+            (e, g.ops.clone())
+        };
+        for (k, v) in ops.iter() {
+            stats.bump_n("ops", k, *v);
+        }
+        stats.bump("stream", if directed { "rule-directed" } else { "random" });
+        let key = dump_expr(&ctx, e);
+        if tree_size(&ctx, e, 3000) >= 3000 {
+            stats.inc("skipped_huge");
+            continue;
+        }
+        distinct.insert(key);
+        let line = run_case(&format!("{id}"), ctx, e, &mut stats);
+        stats.sample(&line, 3);
+        writeln!(out, "{line}").unwrap();
+    }
+    stats.add("distinct_cases", distinct.len() as u64);
+    stats.write(&args.out);
+}
+
+fn gen_random(g: &mut ExprGen) -> ExprRef {
+    let depth = g.cfg.max_depth;
+    if g.rng.chance(1, 8) {
+        let iw = g.rng.range(1, 4) as WidthInt;
+        let dw = g.pick_width();
+        g.gen_array(iw, dw, depth)
+    } else {
+        let w = g.pick_width();
+        g.gen_bv(w, depth)
+    }
+}
+
+fn lit(g: &mut ExprGen, w: WidthInt) -> ExprRef {
+    let v = lit_value(g.rng, w);
+    g.ctx.bv_lit(&v)
+}
+
+fn mask_lit(g: &mut ExprGen, w: WidthInt) -> ExprRef {
+    // several runs of ones
+    let mut bits = vec![b'0'; w as usize];
+    let mut i = 0usize;
+    let mut on = g.rng.chance(1, 2);
+    while i < w as usize {
+        let run = 1 + g.rng.below(1 + (w as u64) / 3) as usize;
+        for j in i..(i + run).min(w as usize) {
+            if on {
+                bits[j] = b'1';
+            }
+        }
+        i += run;
+        on = !on;
+    }
+    let v = bits_value(std::str::from_utf8(&bits).unwrap());
+    g.ctx.bv_lit(&v)
+}
+
+/// One instance of the left-hand shape of a rewrite rule, with random sub-terms, possibly wrapped
+/// in a random context so that the driver's bottom-up/fixed-point logic is exercised too.
+pub fn gen_directed(g: &mut ExprGen) -> ExprRef {
+    let d = g.rng.below(3) as u32;
+    let w = g.pick_width();
+    let w2 = if w >= 2 { w } else { 2 + g.rng.below(7) as WidthInt };
+    let shape = g.rng.below(64);
+    *g.ops.entry("directed").or_insert(0) += 1;
+    let e = match shape {
+        0 => {
+            let c = g.gen_bv(1, d);
+            let a = g.gen_bv(w, d);
+            g.ctx.ite(c, a, a)
+        }
+        1 => {
+            let c = lit(g, 1);
+            let a = g.gen_bv(w, d);
+            let b = g.gen_bv(w, d);
+            g.ctx.ite(c, a, b)
+        }
+        2 => {
+            let c = g.gen_bv(1, d);
+            let a = lit(g, 1);
+            let b = lit(g, 1);
+            g.ctx.ite(c, a, b)
+        }
+        3 => {
+            let c = g.gen_bv(1, d);
+            let a = lit(g, 1);
+            let b = g.gen_bv(1, d);
+            g.ctx.ite(c, a, b)
+        }
+        4 => {
+            let c = g.gen_bv(1, d);
+            let a = g.gen_bv(1, d);
+            let b = lit(g, 1);
+            g.ctx.ite(c, a, b)
+        }
+        5 => {
+            let a = g.gen_bv(w, d);
+            g.ctx.equal(a, a)
+        }
+        6 => {
+            let a = lit(g, w);
+            let b = lit(g, w);
+            g.ctx.equal(a, b)
+        }
+        7 => {
+            let a = g.gen_bv(1, d);
+            let b = lit(g, 1);
+            if g.rng.chance(1, 2) { g.ctx.equal(a, b) } else { g.ctx.equal(b, a) }
+        }
+        8 | 9 => {
+            let wa = g.rng.range(1, w2 as u64 - 1) as WidthInt;
+            let x = g.gen_bv(wa, d);
+            let y = g.gen_bv(w2 - wa, d);
+            let c = g.ctx.concat(x, y);
+            let z = if shape == 8 { g.gen_bv(w2, d) } else { lit(g, w2) };
+            if g.rng.chance(1, 2) { g.ctx.equal(c, z) } else { g.ctx.equal(z, c) }
+        }
+        10..=12 => {
+            let a = g.gen_bv(w, d);
+            match shape {
+                10 => g.ctx.and(a, a),
+                11 => g.ctx.or(a, a),
+                _ => g.ctx.xor(a, a),
+            }
+        }
+        13..=15 => {
+            let a = lit(g, w);
+            let b = lit(g, w);
+            match shape {
+                13 => g.ctx.and(a, b),
+                14 => g.ctx.or(a, b),
+                _ => g.ctx.xor(a, b),
+            }
+        }
+        16..=18 => {
+            let a = g.gen_bv(w, d);
+            let z = if g.rng.chance(1, 2) { g.ctx.zero(w) } else { g.ctx.ones(w) };
+            let (x, y) = if g.rng.chance(1, 2) { (a, z) } else { (z, a) };
+            match shape {
+                16 => g.ctx.and(x, y),
+                17 => g.ctx.or(x, y),
+                _ => g.ctx.xor(x, y),
+            }
+        }
+        19 => {
+            // (x # y) & mask
+            let wa = g.rng.range(1, w2 as u64 - 1) as WidthInt;
+            let x = g.gen_bv(wa, d);
+            let y = g.gen_bv(w2 - wa, d);
+            let c = g.ctx.concat(x, y);
+            let m = mask_lit(g, w2);
+            if g.rng.chance(1, 2) { g.ctx.and(c, m) } else { g.ctx.and(m, c) }
+        }
+        20 | 21 => {
+            // a & mask with runs of ones
+            let a = if g.rng.chance(1, 2) { g.bv_sym(w2) } else { g.gen_bv(w2, d) };
+            let m = mask_lit(g, w2);
+            if g.rng.chance(1, 2) { g.ctx.and(a, m) } else { g.ctx.and(m, a) }
+        }
+        22..=24 => {
+            let a = g.gen_bv(w, d);
+            let na = g.ctx.not(a);
+            let (x, y) = if g.rng.chance(1, 2) { (a, na) } else { (na, a) };
+            match shape {
+                22 => g.ctx.and(x, y),
+                23 => g.ctx.or(x, y),
+                _ => g.ctx.xor(x, y),
+            }
+        }
+        25 | 26 => {
+            let a = g.gen_bv(w, d);
+            let b = g.gen_bv(w, d);
+            let na = g.ctx.not(a);
+            let nb = g.ctx.not(b);
+            if shape == 25 { g.ctx.and(na, nb) } else { g.ctx.or(na, nb) }
+        }
+        27 => {
+            // uge of literals, often equal
+            let a = lit(g, w);
+            let b = if g.rng.chance(1, 2) { a } else { lit(g, w) };
+            g.ctx.greater_or_equal(a, b)
+        }
+        28 => {
+            let a = g.gen_bv(w, d);
+            let l = match g.rng.below(3) {
+                0 => g.ctx.zero(w),
+                1 => g.ctx.ones(w),
+                _ => lit(g, w),
+            };
+            if g.rng.chance(1, 2) { g.ctx.greater_or_equal(a, l) } else { g.ctx.greater_or_equal(l, a) }
+        }
+        29 => {
+            let a = g.gen_bv(w, d);
+            let n = g.ctx.not(a);
+            g.ctx.not(n)
+        }
+        30 => {
+            let a = lit(g, w);
+            g.ctx.not(a)
+        }
+        31 | 32 => {
+            let by = 1 + g.rng.below(9) as WidthInt;
+            let a = if g.rng.chance(1, 3) { lit(g, w) } else { g.gen_bv(w, d) };
+            if shape == 31 { g.ctx.zero_extend(a, by) } else { g.ctx.sign_extend(a, by) }
+        }
+        33 => {
+            let a = g.gen_bv(w, d);
+            let by1 = 1 + g.rng.below(5) as WidthInt;
+            let by2 = 1 + g.rng.below(5) as WidthInt;
+            let s = g.ctx.sign_extend(a, by1);
+            g.ctx.sign_extend(s, by2)
+        }
+        34 => {
+            let x = g.gen_bv(w, d);
+            let y = g.gen_bv(w2, d);
+            let z = g.gen_bv(w, d);
+            let c = g.ctx.concat(x, y);
+            g.ctx.concat(c, z)
+        }
+        35 => {
+            let a = lit(g, w);
+            let b = lit(g, w2);
+            g.ctx.concat(a, b)
+        }
+        36 => {
+            let a = lit(g, w);
+            let b = lit(g, w2);
+            let z = g.gen_bv(w, d);
+            let c = g.ctx.concat(b, z);
+            g.ctx.concat(a, c)
+        }
+        37 => {
+            // adjacent slices of the same thing
+            let src_w = w2 + 2 + g.rng.below(6) as WidthInt;
+            let x = g.gen_bv(src_w, d);
+            let lo_b = g.rng.below(2) as WidthInt;
+            let hi_b = lo_b + g.rng.below((src_w - lo_b - 2) as u64) as WidthInt;
+            let lo_a = if g.rng.chance(5, 6) { hi_b + 1 } else { hi_b };
+            let hi_a = lo_a + g.rng.below((src_w - lo_a) as u64) as WidthInt;
+            let sa = g.ctx.slice(x, hi_a, lo_a);
+            let sb = g.ctx.slice(x, hi_b, lo_b);
+            g.ctx.concat(sa, sb)
+        }
+        38..=52 => {
+            // slice of <something>
+            let inner_w = w2 + g.rng.below(8) as WidthInt;
+            let inner = match shape {
+                38 => {
+                    let x = g.gen_bv(inner_w + 3, d);
+                    let lo = g.rng.below(3) as WidthInt;
+                    g.ctx.slice(x, lo + inner_w - 1, lo)
+                }
+                39 => lit(g, inner_w),
+                40 | 41 => {
+                    let wa = g.rng.range(1, inner_w as u64 - 1) as WidthInt;
+                    let x = g.gen_bv(wa, d);
+                    let y = g.gen_bv(inner_w - wa, d);
+                    g.ctx.concat(x, y)
+                }
+                42 | 43 => {
+                    let by = g.rng.range(1, inner_w as u64 - 1) as WidthInt;
+                    let x = g.gen_bv(inner_w - by, d);
+                    g.ctx.sign_extend(x, by)
+                }
+                44 => {
+                    let c = g.gen_bv(1, d);
+                    let a = g.gen_bv(inner_w, d);
+                    let b = g.gen_bv(inner_w, d);
+                    g.ctx.ite(c, a, b)
+                }
+                45 => {
+                    let a = g.gen_bv(inner_w, d);
+                    g.ctx.not(a)
+                }
+                46 => {
+                    let a = g.gen_bv(inner_w, d);
+                    g.ctx.negate(a)
+                }
+                _ => {
+                    let a = g.gen_bv(inner_w, d);
+                    let b = g.gen_bv(inner_w, d);
+                    match shape {
+                        47 => g.ctx.and(a, b),
+                        48 => g.ctx.or(a, b),
+                        49 => g.ctx.xor(a, b),
+                        50 => g.ctx.add(a, b),
+                        51 => g.ctx.sub(a, b),
+                        _ => g.ctx.mul(a, b),
+                    }
+                }
+            };
+            let iw = inner.get_bv_type(g.ctx).unwrap();
+            let lo = if g.rng.chance(1, 2) { 0 } else { g.rng.below(iw as u64) as WidthInt };
+            let hi = lo + g.rng.below((iw - lo) as u64) as WidthInt;
+            g.ctx.slice(inner, hi, lo)
+        }
+        53..=55 => {
+            let a = if g.rng.chance(1, 4) { lit(g, w) } else { g.gen_bv(w, d) };
+            let v = shift_amount(g.rng, w);
+            let b = g.ctx.bv_lit(&v);
+            match shape {
+                53 => g.ctx.shift_left(a, b),
+                54 => g.ctx.shift_right(a, b),
+                _ => g.ctx.arithmetic_shift_right(a, b),
+            }
+        }
+        56 | 57 => {
+            let a = if g.rng.chance(1, 2) { lit(g, w) } else { g.gen_bv(w, d) };
+            let b = match g.rng.below(3) {
+                0 => g.ctx.zero(w),
+                1 => lit(g, w),
+                _ => g.gen_bv(w, d),
+            };
+            let (x, y) = if g.rng.chance(1, 2) { (a, b) } else { (b, a) };
+            if shape == 56 { g.ctx.add(x, y) } else { g.ctx.mul(x, y) }
+        }
+        58 => {
+            // mul by 0 / 1 / power of two / other literal
+            let a = g.gen_bv(w2, d);
+            let l = match g.rng.below(4) {
+                0 => g.ctx.zero(w2),
+                1 => g.ctx.one(w2),
+                2 => {
+                    let k = g.rng.below(w2 as u64) as WidthInt;
+                    let mut v = BitVecValue::zero(w2);
+                    baa::BitVecMutOps::set_bit(&mut v, k);
+                    g.ctx.bv_lit(&v)
+                }
+                _ => lit(g, w2),
+            };
+            if g.rng.chance(1, 2) { g.ctx.mul(a, l) } else { g.ctx.mul(l, a) }
+        }
+        59 => {
+            let a = g.gen_bv(1, d);
+            let b = g.gen_bv(1, d);
+            g.ctx.implies(a, b)
+        }
+        60 => {
+            // literal x literal multiplication, also above 128 bits
+            let ww = *g.rng.pick(&[8u32, 64, 65, 128, 129]);
+            let a = lit(g, ww);
+            let b = lit(g, ww);
+            g.ctx.mul(a, b)
+        }
+        _ => {
+            let w = g.pick_width();
+            g.gen_bv(w, 2)
+        }
+    };
+    // wrap in a context some of the time
+    if g.rng.chance(1, 3) {
+        if let Some(w) = e.get_bv_type(g.ctx) {
+            let other = g.gen_bv(w, 1);
+            return match g.rng.below(4) {
+                0 => g.ctx.and(e, other),
+                1 => g.ctx.xor(other, e),
+                2 => {
+                    let c = g.gen_bv(1, 1);
+                    g.ctx.ite(c, e, other)
+                }
+                _ => g.ctx.not(e),
+            };
+        }
+    }
+    e
+}
+
+fn type_checks(ctx: &Context, e: ExprRef) -> bool {
+    collect_nodes(ctx, e).iter().all(|n| n.type_check(ctx).is_ok())
+}
+
+fn run_case(id: &str, mut ctx: Context, e: ExprRef, stats: &mut Stats) -> String {
+    let e_txt = dump_expr(&ctx, e);
+    // 1. single-expression entry point (sparse cache)
+    let r1 = guarded(|| simplify_single_expression(&mut ctx, e));
+    let mut loc = String::new();
+    let impl_txt = match &r1 {
+        Ok(r) => dump_expr(&ctx, *r),
+        Err(_) => {
+            loc = last_panic_loc();
+            stats.inc("impl_panics");
+            "(panic)".to_string()
+        }
+    };
+    // 2. dense cache
+    let r2 = guarded(|| {
+        let mut s = Simplifier::new(DenseExprMetaData::default());
+        s.simplify(&mut ctx, e)
+    });
+    let dense_txt = match (&r1, &r2) {
+        (Ok(a), Ok(b)) if a == b => "same".to_string(),
+        (Err(_), Err(_)) => "same".to_string(),
+        (_, Ok(b)) => dump_expr(&ctx, *b),
+        (_, Err(_)) => "(panic)".to_string(),
+    };
+    // 3. the implementation's own type checker on every node of the result, and the result type
+    let (tc, ty) = match &r1 {
+        Ok(r) => (if type_checks(&ctx, *r) { "ok" } else { "fail" }, if r.get_type(&ctx) == e.get_type(&ctx) { "same" } else { "changed" }),
+        Err(_) => ("na", "na"),
+    };
+    // 4. simplifying the result again returns the same reference
+    let again = match &r1 {
+        Ok(r) => match guarded(|| simplify_single_expression(&mut ctx, *r)) {
+            Ok(r3) if r3 == *r => "same".to_string(),
+            Ok(r3) => dump_expr(&ctx, r3),
+            Err(_) => "(panic)".to_string(),
+        },
+        Err(_) => "na".to_string(),
+    };
+    stats.bump("result", if impl_txt == e_txt { "unchanged" } else if impl_txt == "(panic)" { "panic" } else { "rewritten" });
+    format!("(case {id} (expr {e_txt}) (impl {impl_txt}) (impl_dense {dense_txt}) (tc {tc}) (ty {ty}) (again {again}) (panicloc {}))", quote(&loc))
 }
